@@ -57,4 +57,17 @@ def step (s : St) : Act → St
 
 def run (as : List Act) : St := as.foldl step init
 
+/-! ### write interest (`EVENT_WRITE` in the selector registration of the connection's socket)
+`_set_selector_events_mask("rw", stream)` arms it when a batch is handed over; `write()` asks for `"r"` once the send
+buffer is empty and `read()` always does, and the guard of `__set_selector_events_mask` turns `"r"` into `"rw"` while
+the hand-over buffer or the send buffer holds bytes. Tracked next to the pipeline state. -/
+def armedAfter (armed : Bool) (s : St) : Act → Bool
+  | .flush limit => armed || !(takeBatch limit 0 s.sendq).1.isEmpty
+  | .write n => if (s.sendbuf.drop n).isEmpty then !s.pending.isEmpty else armed
+  | .readEvent => !s.pending.isEmpty || !s.sendbuf.isEmpty
+  | _ => armed
+
+def step2 (sa : St × Bool) (a : Act) : St × Bool := (step sa.1 a, armedAfter sa.2 sa.1 a)
+def run2 (as : List Act) : St × Bool := as.foldl step2 (init, false)
+
 end BV.Outbound
